@@ -114,6 +114,12 @@ macro_rules! number_probe {
     }};
 }
 
+/// the borrowed operand forms of a declared operator instance (must exist in every configuration that has the quantity)
+macro_rules! forms {
+    ($tag:expr, $a:expr, *, $b:expr) => {{ let (a, b) = ($a, $b); println!("{}|forms|{}|{}|{}", $tag, &a * b, a * &b, &a * &b); }};
+    ($tag:expr, $a:expr, /, $b:expr) => {{ let (a, b) = ($a, $b); println!("{}|forms|{}|{}|{}", $tag, &a / b, a / &b, &a / &b); }};
+}
+
 /// rates between two quantity types: display, both operand orders of the product, value / rate, the reciprocal
 fn rate_corpus<T, P>(tag: &str)
 where
@@ -287,6 +293,7 @@ fn main() {
         let a: Area = l * w;
         let back: Length = a / l;
         println!("area|derived|{}|{}|{}|{}", a, back, &l * &w, (Amnt!(2) * KILOMETER) * (Amnt!(3) * KILOMETER));
+        forms!("area", l, *, w); forms!("area", a, /, l);
         corpus::<Area>("area");
         serde_corpus::<Area>("area");
         rate_corpus::<Area, Area>("area");
@@ -303,6 +310,7 @@ fn main() {
         let la: Area = v / l;
         let ll: Length = v / a;
         println!("volume|derived|{}|{}|{}|{}", v, v2, la, ll);
+        forms!("volume", l, *, a); forms!("volume", a, *, l); forms!("volume", v, /, l); forms!("volume", v, /, a);
         corpus::<Volume>("volume");
         serde_corpus::<Volume>("volume");
         rate_corpus::<Volume, Volume>("volume");
@@ -319,6 +327,7 @@ fn main() {
         let d2: Length = t * v;
         let t2: Duration = l / v;
         println!("speed|derived|{}|{}|{}|{}", v, d, d2, t2);
+        forms!("speed", l, /, t); forms!("speed", v, *, t); forms!("speed", t, *, v); forms!("speed", l, /, v);
         corpus::<Speed>("speed");
         serde_corpus::<Speed>("speed");
         rate_corpus::<Speed, Speed>("speed");
@@ -334,6 +343,7 @@ fn main() {
         let v2: Speed = a * t;
         let t2: Duration = v / a;
         println!("acceleration|derived|{}|{}|{}|{}", a, v2, t * a, t2);
+        forms!("acceleration", v, /, t); forms!("acceleration", a, *, t); forms!("acceleration", t, *, a); forms!("acceleration", v, /, a);
         corpus::<Acceleration>("acceleration");
         serde_corpus::<Acceleration>("acceleration");
         rate_corpus::<Acceleration, Acceleration>("acceleration");
@@ -350,6 +360,7 @@ fn main() {
         let m2: Mass = f / a;
         let a2: Acceleration = f / m;
         println!("force|derived|{}|{}|{}|{}", f, f2, m2, a2);
+        forms!("force", m, *, a); forms!("force", a, *, m); forms!("force", f, /, a); forms!("force", f, /, m);
         corpus::<Force>("force");
         serde_corpus::<Force>("force");
         rate_corpus::<Force, Force>("force");
@@ -366,6 +377,7 @@ fn main() {
         let f2: Force = e / l;
         let l2: Length = e / f;
         println!("energy|derived|{}|{}|{}|{}", e, e2, f2, l2);
+        forms!("energy", f, *, l); forms!("energy", l, *, f); forms!("energy", e, /, l); forms!("energy", e, /, f);
         corpus::<Energy>("energy");
         serde_corpus::<Energy>("energy");
         rate_corpus::<Energy, Energy>("energy");
@@ -381,6 +393,7 @@ fn main() {
         let e2: Energy = p * t;
         let t2: Duration = e / p;
         println!("power|derived|{}|{}|{}|{}", p, e2, t * p, t2);
+        forms!("power", e, /, t); forms!("power", p, *, t); forms!("power", t, *, p); forms!("power", e, /, p);
         corpus::<Power>("power");
         serde_corpus::<Power>("power");
         rate_corpus::<Power, Power>("power");
@@ -396,6 +409,7 @@ fn main() {
         let n2: AmountT = t * f;
         let t2: Duration = Amnt!(2) / f;
         println!("frequency|derived|{}|{}|{}|{}", f, n, n2, t2);
+        forms!("frequency", Amnt!(2), /, t); forms!("frequency", f, *, t); forms!("frequency", t, *, f); forms!("frequency", Amnt!(2), /, f);
         corpus::<Frequency>("frequency");
         serde_corpus::<Frequency>("frequency");
         rate_corpus::<Frequency, Frequency>("frequency");
@@ -420,6 +434,7 @@ fn main() {
         let d2: DataVolume = r * t;
         let t2: Duration = d / r;
         println!("datathroughput|derived|{}|{}|{}|{}", r, d2, t * r, t2);
+        forms!("datathroughput", d, /, t); forms!("datathroughput", r, *, t); forms!("datathroughput", t, *, r); forms!("datathroughput", d, /, r);
         corpus::<DataThroughput>("datathroughput");
         serde_corpus::<DataThroughput>("datathroughput");
         rate_corpus::<DataThroughput, DataThroughput>("datathroughput");
